@@ -454,6 +454,11 @@ COMMIT_GROUPS = {
                   "task wake-up / state transitions: every waker entry point performs its state update and schedules when it must"),
     "queues": (r"^util::(indexed_)?priority_queue::", r"BinaryHeap::(push|pop)$|Vec::(push|pop)$|^std::mem::replace$|sift_(up|down)$",
                "priority-queue structural updates: once an operation has decided to insert / remove, the heap and slab updates all happen"),
+    "ports": (r"^ports::|^<ports::",
+              r"^channel::Sender::send$|^std::future::Future::poll$|EventSinkWriter::write$|Broadcaster::broadcast$|RecycledFuture::new$|"
+              r"BroadcastFuture::new$|BroadcasterInner::(futures|add)$|Sender::send(_owned)?$|CachedRwLock::(write|write_scratchpad)$|"
+              r"multishot::\w+::(send|recv)$|oneshot::\w+::send$|^std::vec::Vec::push$",
+              "message delivery through ports: sender creation, fan-out, awaiting, reply hand-over, connection registration"),
     "executor-drop": (r"^<executor::|^executor::", r"JoinHandle::join$|CancelToken::cancel$|Signal::set$|Slab::drain$|Vec::drain$",
                       "executor shutdown steps"),
     "mailbox-signals": (r"^channel::|^<channel::", r"notify(_one|_all)?$|channel::queue::Queue::(push|pop|close)$",
